@@ -53,3 +53,112 @@ class NewStatementStart:
             if re.fullmatch(r"(ALTER|CREATE|DROP|SET) [ -~]*", line.upper()) is not None:
                 self_.new_statement = True
         return self_.new_statement
+
+
+# ---------------------------------------------------------------------------------------------------------------------
+# Output.format: the parser's records are consumed ONCE, IN ORDER; each record is dispatched by its own keys only - an
+# ALTER TABLE / CREATE INDEX record updates the table registry at its position in the script, every other record is
+# registered and appended to the result.  The two handlers are abstract here (store transformers: `opaque` results
+# that are functions of the store before the call, the record and the output mode; the store stands for everything
+# reachable from Output.tables_dict, including the table dicts already appended to the result, which the handlers
+# update in place).  What is proved for scripts of ANY length: order, single dispatch, nothing skipped or applied twice,
+# grouping applied exactly when asked for.  What the handlers do to one table is the subject of C04 / C13 contracts.
+from contracts.lib import opaque, seq_filter, seq_fold, seq_map
+
+
+def is_alter_or_index(st):
+    return "index_name" in st or "alter_table_name" in st
+
+
+def is_definition(st):
+    return not is_alter_or_index(st)
+
+
+def store_step(mode):
+    def step(store, st):
+        if is_alter_or_index(st):
+            return opaque("store-after-alter-or-index", store, st, mode)
+        return opaque("store-after-definition", store, st, mode)
+    return step
+
+
+def entity(mode):
+    return lambda st: opaque("entity", st, mode)
+
+
+def statement_record(G, name):
+    return G.record({"payload": G.str(name + ".payload")},
+                    {"index_name": (name + ".is_index", G.str(name + ".index_name")), "alter_table_name": (name + ".is_alter", G.str(name + ".alter_table_name"))})
+
+
+@contract
+class DefinitionHandlerStub:
+    """ASSUMED: process_statement_data is a function of (store, record, mode); it changes only the store"""
+    fn = "output.core.Output.process_statement_data"
+    props = []
+    modular = True
+    cases = {"-": {}}
+
+    def build(G, case):
+        return dict(args=[G.obj("Output", parser_output=[], output_mode="sql", group_by_type=False, final_result=[], tables_dict={}), {}])
+
+    def spec(case, self_, statement_data):
+        self_.tables_dict = opaque("store-after-definition", self_.tables_dict, statement_data, self_.output_mode)
+        return opaque("entity", statement_data, self_.output_mode)
+
+
+@contract
+class AlterIndexHandlerStub:
+    """ASSUMED: process_alter_and_index_result is a function of (store, record, mode); it changes only the store"""
+    fn = "output.core.Output.process_alter_and_index_result"
+    props = []
+    modular = True
+    cases = {"-": {}}
+
+    def build(G, case):
+        return dict(args=[G.obj("Output", parser_output=[], output_mode="sql", group_by_type=False, final_result=[], tables_dict={}), {}])
+
+    def spec(case, self_, table):
+        self_.tables_dict = opaque("store-after-alter-or-index", self_.tables_dict, table, self_.output_mode)
+
+
+@contract
+class GroupingStub:
+    """group_by_type_result has its own contract (C13 GroupByType); here: a function of the flat list"""
+    fn = "output.core.Output.group_by_type_result"
+    props = []
+    modular = True
+    cases = {"-": {}}
+
+    def build(G, case):
+        return dict(args=[G.obj("Output", parser_output=[], output_mode="sql", group_by_type=True, final_result=[], tables_dict={})])
+
+    def spec(case, self_):
+        self_.final_result = opaque("grouped", self_.final_result)
+
+
+@contract
+class FormatInOrder:
+    fn = "output.core.Output.format"
+    props = ["C03", "C04", "C13"]
+    cases = {"flat": dict(group=False), "grouped": dict(group=True)}
+    loops = {"output.core.Output.format#0": dict(inv="inv_records", temps=["statement_data"], reads=["self.output_mode", "self.tables_dict"])}
+    abstract_callees = True
+
+    def build(G, case):
+        out = G.obj("Output", parser_output=G.oseq("records", elem=statement_record), output_mode=G.str("mode", None, "hql"), group_by_type=case["group"],
+                    final_result=[], tables_dict=opaque("empty-store"), schema_key="schema")
+        return dict(args=[out])
+
+    def inv_records(case, pre, rest, entry):
+        mode = entry["self.output_mode"]
+        return {"self.tables_dict": seq_fold(store_step(mode), entry["self.tables_dict"], pre),
+                "self.final_result": seq_map(entity(mode), seq_filter(is_definition, pre))}
+
+    def spec(case, self_):
+        mode = self_.output_mode
+        self_.tables_dict = seq_fold(store_step(mode), self_.tables_dict, self_.parser_output)
+        self_.final_result = seq_map(entity(mode), seq_filter(is_definition, self_.parser_output))
+        if self_.group_by_type:
+            self_.final_result = opaque("grouped", self_.final_result)
+        return self_.final_result
